@@ -255,6 +255,7 @@ func c05(r *core.Run) {
 			"the recovered owner is accepted only with the address length", "the owner is stored without the length check")
 	}
 	c05Recover(r)
+	keyAddressRules(r, "C05.P2", "NewEthereumAddress")
 }
 
 // c05Recover (G3): crypto.Recover hands btcec.RecoverCompact a recovery byte that is the
